@@ -423,6 +423,9 @@ def process_unit(unit, tier, keep=False, verbose=False, seed=0):
             tool = [d.get("message") for d in v["diags"] if classify_diag(d) == "tool"]
             if not keep:
                 os.remove(p)
+            if tool and all("resource limit" in (t or "").lower() for t in tool):
+                # the mutated function is no longer provable within the resource limit: the proof is gone
+                return (label, name, True, "proof no longer goes through (rlimit): " + norm("; ".join(tool), 120))
             if tool:
                 return (label, name, None, "tool: " + norm("; ".join(tool), 200))
             return (label, name, bool(fails), "; ".join(sorted({f['fn'] + ': ' + f['kind'] for f in fails}))[:300])
@@ -464,7 +467,7 @@ def run_replay(prop, unit, fails, seed, outpath):
     oracles = idx.get("oracles", {})
     names = []
     for f in fails:
-        for pat, orc in oracles.get(unit, {}).items():
+        for pat, orc in (oracles.get(prop + ":" + unit) or oracles.get(unit, {})).items():
             if re.search(pat, f["fn"]) and orc not in names:
                 names.append(orc)
     rec = {"property": prop, "unit": unit, "seed": seed,
